@@ -28,6 +28,7 @@ ASSUMPTIONS = [
 ]
 
 LEAVES = [T("t"), H("<i>h</i>"), R("<u>r</u>"), M]
+STYLE_LEAF = ["E", "style", False, [], [T("p"), T("q")]]          # ws-off raw-text element with two children
 KINDS = [B, I, Vb, Vi]
 OWN = {"div", "span", "hr", "br"}
 _SPLIT = re.compile(r"\s+|\S+")
@@ -54,6 +55,8 @@ def expected_tag_tokens(spec, out):
     """document-order (kind, name, ws) for every token a spec element produces."""
     if spec[0] != "E":
         return
+    if spec[1] not in OWN:
+        return          # e.g. the raw-text <style> leaf: its tokens are not mapped (counts as 'not block')
     kids = vis(spec[4])
     from ..ref.layout import VOID
     if not kids and spec[1] in VOID:
@@ -159,6 +162,53 @@ def check_output(spec_list, out, viols, cfg, is_tag_root):
         viols.append(("junk-before-root", "text before the root tag", {"observed": out}))
 
 
+WS_LEAVES = [T("t\n"), T(" s "), H("<i>h</i>\n"), T("x\r\ny"), R("<u>r</u> "), T("\n")]
+
+
+def make_fn_ws(configs):
+    """leaves that themselves hold / end with whitespace: clauses (i) and (ii) only (no relabelling,
+    occurrence instead of exactly-once)."""
+    def fn(case):
+        viols = []
+        for (indent, eol) in configs:
+            out = build(case).get_html_string(indent, eol)
+            maxi = []
+            maximal_ws_free(case, True, maxi)
+            for s_ in maxi:
+                if concat(s_) not in out:
+                    viols.append(("inline-subtree-not-contiguous:ws-leaves",
+                                  f"whitespace-free subtree (with whitespace-bearing text) is not emitted as its exact concatenation for {(indent, eol)}",
+                                  {"subtree": s_, "observed": out}))
+                    return (True, None, viols)
+            pairs = []
+            adjacent_pairs(case[4], pairs)
+            for a, b in pairs:
+                if concat(a) + concat(b) not in out:
+                    viols.append(("whitespace-between-inline-siblings:ws-leaves",
+                                  f"adjacent whitespace-free siblings separated for {(indent, eol)}",
+                                  {"a": a, "b": b, "observed": out}))
+                    return (True, None, viols)
+        return (True, None, viols)
+    return fn
+
+
+def inline_catalogue():
+    """every tags.* / svg.* element that defaults to inline, between inline siblings and after text."""
+    from htmltools import svg, tags
+    out = []
+    code = ["E", "code", False, [], [T("c")]]
+    for mod in (tags, svg):
+        for n, f in vars(mod).items():
+            if callable(f) and getattr(f, "__module__", "") == mod.__name__ and not n.startswith("_"):
+                if f().add_ws or n in ("script", "style"):
+                    continue
+                el = ["E", n, False, [], [T("x")]]
+                out.append(["E", "div", True, [], [el, T("tail")]])
+                out.append(["E", "span", False, [], [code, el, code]])
+                out.append(["E", "div", True, [], [T("lead"), el, el, ["E", "div", True, [], []]]])
+    return out
+
+
 def nontriv(spec_list):
     pairs = []
     adjacent_pairs(spec_list, pairs)
@@ -194,6 +244,14 @@ def plan(tier):
     t1 = trees(Const(LEAVES), KINDS, 1, 4)
     out.append(dict(kind="space", name="wide-shallow-d1w4", space=only_elements(t1), fn=fn_tag,
                     execs=len(configs), note="depth<=1 fan-out<=4"))
+    tws = trees(Const(WS_LEAVES[:3] + [T("t")] if tier == "quick" else WS_LEAVES + [T("t")]), [B, I], 2, 2)
+    out.append(dict(kind="space", name="whitespace-bearing-leaves", space=only_elements(tws), fn=make_fn_ws(configs),
+                    execs=len(configs), note="leaves that hold or end with whitespace / newlines; clauses (i), (ii)"))
+    out.append(dict(kind="space", name="inline-catalogue", space=Const(inline_catalogue()), fn=make_fn_ws(configs),
+                    execs=len(configs), note="every tags.*/svg.* element that defaults to inline, in 3 sibling contexts"))
+    ts = trees(Const([T("t"), M, STYLE_LEAF]), KINDS, 1, 3)
+    out.append(dict(kind="space", name="inline-raw-text-leaf", space=only_elements(ts), fn=fn_tag,
+                    execs=len(configs), note="depth<=1 fan-out<=3 with a ws-off <style> holding two text children"))
     t0 = trees(Const(LEAVES), KINDS, 1, 1)
     out.append(dict(kind="space", name="toplist", space=Seq(t0, 2, 3), fn=fn_list,
                     execs=len(configs), note="top-level lists of 2..3 items of depth<=1 fan-out<=1"))
